@@ -9,11 +9,16 @@
   the parser returns THAT error and the failing event is the last one delivered.  The other
   components: executable mirror with fault injection + correspondence over exhaustive fault
   indices + oracle.
+
+  UBJSON ENCODER (namespace `SF.PropsUbj.C16`): the same theorem for every stream of basic
+  AND extended events, every start state and every fault index: success ⇔ no Write failed, at
+  most one Write ever fails, and the failing event is the one that returns the error.
 -/
 import SF.Cbor.Enc
 import SF.Proofs.CborFault
 import SF.Proofs.CborNoPanic
 import SF.Proofs.CborFailAt
+import SF.Proofs.UbjEncTop
 namespace SF.Props.C16
 open SF SF.Cbor SF.Cbor.Enc
 
@@ -216,3 +221,35 @@ example : (Parse.parse { failAt := some 2 } [0x82, 0x01, 0x82, 0x02, 0x03]).2 = 
     (Parse.parse { failAt := some 2 } [0x82, 0x01, 0x82, 0x02, 0x03]).1.evs.length = 3 := by decide +kernel
 
 end SF.Props.C16
+
+/-! ## UBJSON encoder (SF/Ubjson/Enc.lean; proofs SF/Proofs/Ubj*.lean) -/
+
+namespace SF.PropsUbj.C16
+open SF SF.Ubjson SF.Ubjson.Enc SF.Ubjson.Wire
+open SF.Cbor.Enc (small)
+open SF.Props.UbjEnc
+
+/-- C16 for the UBJSON encoder: for EVERY stream of (basic and extended) events, EVERY state whose
+writer has not failed yet and EVERY fault index: the call sequence reports no error ⇔ no Write
+failed; at most ONE Write ever fails (nothing is attempted after it) -/
+theorem ubj_encoder_reports_write_errors (xs : List XEv) (s : Enc) (h : Clean s.w) :
+    ((run s xs).2 = none ↔ Clean (run s xs).1.w) ∧ Stopped (run s xs).1.w ∧
+      (run s xs).1.w.failFrom = s.w.failFrom :=
+  SF.Props.UbjEnc.ubj_encoder_reports_write_errors xs s h
+
+/-- anatomy of a failing run: the events before index `i` succeeded, event `i` is the one whose
+own Write failed and THE ONE THAT RETURNED the error; no later event ran -/
+theorem ubj_encoder_failing_event (xs : List XEv) (s s' : Enc) (i : Nat) (h : Clean s.w)
+    (hr : run s xs = (s', some i)) :
+    ∃ (pre post : List XEv) (x : XEv) (s1 : Enc),
+      xs = pre ++ x :: post ∧ i = pre.length ∧
+      run s pre = (s1, none) ∧ Clean s1.w ∧
+      step s1 x = (s', false) ∧ ¬ Clean s'.w :=
+  SF.Props.UbjEnc.ubj_encoder_failing_event xs s s' i h hr
+
+/-- a new encoder over a writer failing from call k on has not failed yet (hypothesis met) -/
+theorem ubj_clean_init (k : Option Nat) : Clean (newVisitor k).w := SF.Props.UbjEnc.ubj_clean_init k
+
+example : (run (newVisitor (some 4)) [.ev .null, .numArr .i16 [-200, 5]]).2 = some 1 := by decide +kernel
+
+end SF.PropsUbj.C16
